@@ -430,6 +430,20 @@ theorem shrinks_lost {w : World} (hw : WorldInv w) (svc : Nat) :
       simp at hp; exact hs hp
     simp [hs, this]
 
+theorem scenesOf_contains {w : World} (hw : WorldInv w) {o : SceneObj} (ho : o ∈ w.scenes) (svc : Nat) :
+    (w.scenesOf svc).contains o.sid = (o.svc == svc) := by
+  by_cases hs : o.svc = svc
+  · have : o.sid ∈ w.scenesOf svc := List.mem_map.2 ⟨o, List.mem_filter.2 ⟨ho, by simp [hs]⟩, rfl⟩
+    simp [hs, this]
+  · have : o.sid ∉ w.scenesOf svc := by
+      intro hm
+      obtain ⟨o', ho', he⟩ := List.mem_map.1 hm
+      obtain ⟨hm', hp⟩ := List.mem_filter.1 ho'
+      have := scene_eq_of_sid_eq hw.nodup hm' ho he
+      subst this
+      simp at hp; exact hs hp
+    simp [hs, this]
+
 /-- losing several services, one after the other (any order gives the same filter) -/
 theorem shrinks_lostMany {w : World} (hw : WorldInv w) (svcs : List Nat) :
     Shrinks w (svcs.foldl World.onServiceLost w) (fun o => !svcs.contains o.svc) := by
